@@ -77,6 +77,48 @@ CHECKS["C07"] = (
     "DESIGN.md §3 C07",
 )
 
+CHECKS["C01"] = (
+    "exploration",
+    "bounded-exhaustive enumeration (all topologies x configurations x all alignment columns) against a brute-force marginalisation oracle",
+    "Every labelled rooted binary topology on 3 and 4 taxa (thorough: 5 and 6) x every configuration "
+    "{JC69, HKY, GTR, GeneralJC69, general symmetric (2 mappings), general non-symmetric, LG, WAG, MG94} x "
+    "{constant, constant+mu, invariant, Weibull K=2/4, Weibull+invariant, Weibull+invariant+mu} x "
+    "{unrooted, ratio time tree + strict clock, increment time tree + per-branch clock, plain time tree + "
+    "per-branch clock} x {partials with ambiguities, partials without, tip states} x EVERY alignment column "
+    "over the alphabet (all 18^3 / 18^4 nucleotide columns incl. lower case; reduced alphabets for the "
+    "cross product) is loaded from JSON and evaluated: block totals with repeated non-adjacent columns and "
+    "every per-pattern value are compared (1e-9) with a literal sum over all internal-state assignments and "
+    "rate categories built from independently constructed rate matrices / expm / site-model rates; the same "
+    "model is then given a second parameter point through the public interface and compared again.",
+    "Trees above 6 taxa not enumerated; 1-3 generic parameter points per model; numpy trusted.",
+    "DESIGN.md §3 C01",
+)
+CHECKS["C02"] = (
+    "exploration",
+    "bounded-exhaustive enumeration of equivalent specifications (permutations, orientations, root placements) with a differential oracle",
+    "For every labelled rooted topology (3..5 taxa, thorough 6): all n! x n! taxa-list / sequence-list orders "
+    "(n<=4; 2 n! for larger n), all 2^(n-1) child orientations, all 120 column orders and all 243 "
+    "multiplicity patterns of a 5-column alignment, tip states vs tip partials, and all 2n-3 root placements "
+    "(both child orders) for the reversible models, each loaded from JSON and compared (1e-10) with the "
+    "canonical specification of the same tree, for JC69 / HKY+I / GTR+W4 on unrooted and dated trees.",
+    "Differential oracle: the canonical value is tied to the independent oracle by C01.",
+    "DESIGN.md §3 C02",
+)
+CHECKS["C03"] = (
+    "model_checking",
+    "explicit-state search over evaluation histories of the sticky rescale flag + exhaustive tree-size sweep through the subnormal band",
+    "Every tree size 500..560 (quick: every second) x shape x model x tip representation is evaluated fresh with "
+    "saturated branches (site likelihoods sweep through the whole subnormal band and beyond) against an "
+    "extended-range log-domain reference (itself checked against mpmath at 60 digits each run); and for each "
+    "of a set of model instances (520..800 taxa) the state graph over (rescale flag, previous operation) is "
+    "explored to closure with the operations {large, band (site likelihood ~1e-320, located by bisection on "
+    "the reference), underflowing, batched [large, under], batched [band, large]} applied through the public "
+    "parameter interface, every returned value compared to 1e-8; a model forced to rescale from the start "
+    "must agree too.",
+    "Three shape families with uniform branch lengths; states merged on (flag, previous op).",
+    "DESIGN.md §3 C03",
+)
+
 NOT_APPLICABLE = {}
 
 PENDING_REASON = ("check not built yet in this revision (planned in DESIGN.md §3); "
